@@ -153,9 +153,32 @@ def cospherical_samples(seed, n):
     return out
 
 
+def clustered_samples(seed, n):
+    """five points within 2^k grid units of each other for k = 8 .. 40 (tight clusters take any fixed-width fast path), generic and
+    co-spherical; coordinates anywhere in the 52-bit range"""
+    rng = random.Random(seed)
+    out = []
+    while len(out) < n:
+        k = rng.choice((8, 16, 24, 28, 29, 30, 31, 32, 36, 40))
+        h = 1 << k
+        c = [rng.randrange(h + 2, R52 - h - 2) for _ in range(3)]
+        if rng.random() < 0.5:
+            pts = [[c[a] + rng.randrange(-h + 1, h) for a in range(3)] for _ in range(5)]
+        else:
+            p, q, s = (rng.randrange(1, h // 2 + 1) for _ in range(3))
+            cand = {tuple(c[a] + sg[a] * perm[a] for a in range(3)) for perm in itertools.permutations((p, q, s)) for sg in itertools.product((1, -1), repeat=3)}
+            if len(cand) < 5:
+                continue
+            pts = [list(x) for x in rng.sample(sorted(cand), 5)]
+            if rng.random() < 0.5:
+                pts[4][rng.randrange(3)] += rng.choice((-1, 1))
+        out.append(dict(zip(NAMES, pts)))
+    return out
+
+
 def native_vs_reference(seed, n):
     """native function vs the exact reference on adversarial samples (used when the encoding cannot be built)"""
-    samples = gen_samples(seed + 5, n // 2) + cospherical_samples(seed + 6, n // 2)
+    samples = gen_samples(seed + 5, n // 3) + cospherical_samples(seed + 6, n // 3) + clustered_samples(seed + 7, n // 3)
     nat = native_signs(samples)
     bad = []
     for smp, s in zip(samples, nat):
@@ -202,6 +225,15 @@ def check_backend(run, backend, prefix, thorough=False):
                 g = corner_instance(rng_h + list(pc), z3.Not(cond), P)
                 if g is not None:
                     assert_cands.append(g)
+                elif backend == 'ibig' and not assert_cands:
+                    # still nothing: the real function against the exact reference on tight clusters (debug build: an overflow panics)
+                    cl = clustered_samples(run.seed + 23, 400)
+                    for prof_ in ('debug', 'release'):
+                        nat_ = native_signs(cl, prof_)
+                        bad_ = [smp for smp, s_ in zip(cl, nat_) if s_ is None or s_ != exact_ref_sign(smp)]
+                        if bad_:
+                            assert_cands.extend(bad_[:2])
+                            break
     if interp.panics:
         # any reachable panic path (e.g. concrete index failure) under the range
         for pc, msg, st in interp.panics:
@@ -236,7 +268,8 @@ def check_backend(run, backend, prefix, thorough=False):
     run.prove('%s.iii paths cover every D (given the asserts of (i))' % prefix, rng_h, z3.Not(z3.Or(pcs)), timeout=30)
 
     # translator validation: encoding vs the real function on concrete samples (ibig build = the replay binary)
-    samples = gen_samples(run.seed + 17, 200 if not thorough else 1000) + cospherical_samples(run.seed + 18, 100 if not thorough else 1000)
+    samples = gen_samples(run.seed + 17, 200 if not thorough else 1000) + cospherical_samples(run.seed + 18, 100 if not thorough else 1000) + \
+        clustered_samples(run.seed + 19, 150 if not thorough else 1000)
     enc_signs = [py_sign(eval_term(code_det, P, s)) for s in samples]
     if backend == 'ibig':
         nat = native_signs(samples)
